@@ -42,6 +42,11 @@ LIB = {
     "shadow": ([("expr", "n"), ("out", "o")], "{o} = [({n}) * 2]; \"x\"; if {n} > 3 {{ h(); }}"),
     "inner": ([("expr", "x")], "n = [{x} + 1]; \"i\";"),
     "outer": ([("out", "x")], "{x} = [3]; @inner([5]); g();"),
+    # an expr argument of a nested call that mentions the caller's own out parameter (resolved two frames up); the parameter is named
+    # like nothing global (bump) and like another output (bumpn: the global of that name must not be read instead)
+    "bump": ([("out", "a"), ("match", "p")], "{p}; @setx({a}, [{a} + 3]);"),
+    "bumpn": ([("out", "n"), ("match", "p")], "{p}; @setx({n}, [{n} * 2 + 1]); @cond(g, [{n}]);"),
+    "bump3": ([("out", "q")], "@bump({q}, \"y\"); @cond(h, [{q} + 1]);"),
     "casey": ([("match", "p"), ("match", "q"), ("hook", "hk")], "case {{ {p} -> {{ {hk}(); }} {q} -> {{ n = [7]; }} else -> {{ }} }}"),
 }
 
@@ -195,6 +200,9 @@ def twins(n, seed=0):
         [("shadow", ["5", "m"]), ("shadow", ["[m * 2]", "m"])],
         [("outer", ["m"])],
         [("outer", ["n"]), ("shadow", ["[m]", "m"])],
+        [("bump", ["m", '"x"'])],
+        [("bumpn", ["m", '"x"']), ("bumpn", ["n", '/a+b/'])],
+        [("bump3", ["m"]), ("bump", ["n", '"z"'])],
     ]
     seqs = list(fixed)
     for _ in range(max(0, n - len(fixed))):
